@@ -451,7 +451,7 @@ package sod
 //@ func (*objectMap).put
 //@ serves C01 C08 C09 C10 C14
 //@ requires [wf] wfMapObj(m) && o != nil
-//@ requires [C09 lock-free] HM == 0
+//@ requires [C09 lock-free] HM == 0 && SL == 0
 //@ ensures [C14 put.clone] has(m.m, o.uuid) && fresh(m.m[o.uuid]) && m.m[o.uuid] != o && m.m[o.uuid].content == o.content && m.m[o.uuid].uuid == o.uuid && dyntype(m.m[o.uuid]) == dyntype(o)
 //@ ensures [C01 put.others] m.m == old(m.m) && forallk(u, string, imp(u != o.uuid, has(m.m, u) == old(has(m.m, u)) && m.m[u] == old(m.m[u])))
 //@ ensures [C01 put.wf] wfMapObj(m)
@@ -461,7 +461,7 @@ package sod
 //@ func (*objectMap).get
 //@ serves C01 C08 C09 C10 C14
 //@ requires [wf] wfMapObj(m)
-//@ requires [C09 lock-free] HM == 0
+//@ requires [C09 lock-free] HM == 0 && SL == 0
 //@ ensures [C01 get.found] ok == has(m.m, uuid)
 //@ ensures [C14 get.clone] imp(ok, o != nil && fresh(o) && o != m.m[uuid] && o.content == m.m[uuid].content && o.uuid == uuid && dyntype(o) == dyntype(m.m[uuid]))
 //@ modifies nothing
@@ -470,7 +470,7 @@ package sod
 //@ func (*objectMap).has
 //@ serves C01 C08 C09 C10
 //@ requires [wf] wfMapObj(m)
-//@ requires [C09 lock-free] HM == 0
+//@ requires [C09 lock-free] HM == 0 && SL == 0
 //@ ensures [C01 has.iff] ok == has(m.m, uuid)
 //@ modifies nothing
 
@@ -485,7 +485,7 @@ package sod
 //@ func (*objectMap).lockDelete
 //@ serves C01 C08 C09 C10
 //@ requires [wf] wfMapObj(m)
-//@ requires [C09 lock-free] HM == 0
+//@ requires [C09 lock-free] HM == 0 && SL == 0
 //@ ensures [C01 mdel] m.m == old(m.m) && forallk(u, string, has(m.m, u) == (old(has(m.m, u)) && u != uuid) && imp(u != uuid, m.m[u] == old(m.m[u])))
 //@ ensures [C01 mdel.wf] wfMapObj(m)
 //@ modifies MapDom[string,Object]@m.m, MapCard[string,Object]@m.m
@@ -493,7 +493,7 @@ package sod
 //@ func (*objectMap).len
 //@ serves C08 C09 C10
 //@ requires [wf] wfMapObj(m)
-//@ requires [C09 lock-free] HM == 0
+//@ requires [C09 lock-free] HM == 0 && SL == 0
 //@ ensures [C10 len] result == len(m.m)
 //@ modifies nothing
 
@@ -506,7 +506,7 @@ package sod
 //@ func (*objectStore).put
 //@ serves C01 C06 C08 C09 C10 C14
 //@ requires [wf] wfStore(s) && o != nil
-//@ requires [C09 lock-free] HS == 0 && HM == 0
+//@ requires [C09 lock-free] HS == 0 && HM == 0 && SL == 0
 //@ let k string := stypeOf(dyntype(o))
 //@ ensures [C01 sput.has] has(s.m, k) && has(s.m[k].m, o.uuid)
 //@ ensures [C14 sput.clone] fresh(s.m[k].m[o.uuid]) && s.m[k].m[o.uuid] != o && s.m[k].m[o.uuid].content == o.content && dyntype(s.m[k].m[o.uuid]) == dyntype(o)
@@ -520,7 +520,7 @@ package sod
 //@ func (*objectStore).get
 //@ serves C01 C08 C09 C10 C14
 //@ requires [wf] wfStore(s) && in != nil
-//@ requires [C09 lock-free] HS == 0 && HM == 0
+//@ requires [C09 lock-free] HS == 0 && HM == 0 && SL == 0
 //@ let k string := stypeOf(dyntype(in))
 //@ ensures [C01 sget.found] ok == (has(s.m, k) && has(s.m[k].m, in.uuid))
 //@ ensures [C14 sget.clone] imp(ok, out != nil && fresh(out) && out != in && out.content == s.m[k].m[in.uuid].content && out.uuid == in.uuid && dyntype(out) == dyntype(s.m[k].m[in.uuid]))
@@ -530,14 +530,14 @@ package sod
 //@ func (*objectStore).has
 //@ serves C01 C08 C09 C10
 //@ requires [wf] wfStore(s) && o != nil
-//@ requires [C09 lock-free] HS == 0 && HM == 0
+//@ requires [C09 lock-free] HS == 0 && HM == 0 && SL == 0
 //@ ensures [C01 shas.iff] ok == (has(s.m, stypeOf(dyntype(o))) && has(s.m[stypeOf(dyntype(o))].m, o.uuid))
 //@ modifies nothing
 
 //@ func (*objectStore).delete
 //@ serves C01 C08 C09 C10
 //@ requires [wf] wfStore(s) && o != nil
-//@ requires [C09 lock-free] HS == 0 && HM == 0
+//@ requires [C09 lock-free] HS == 0 && HM == 0 && SL == 0
 //@ let k string := stypeOf(dyntype(o))
 //@ ensures [C01 sdel.types] s.m == old(s.m) && forallk(t, string, has(s.m, t) == old(has(s.m, t)) && s.m[t] == old(s.m[t]))
 //@ ensures [C01 sdel.objects] forallk(t, string, imp(has(s.m, t), s.m[t].m == old(s.m[t].m) && forallk(u, string, has(s.m[t].m, u) == (old(has(s.m[t].m, u)) && !(t == k && u == o.uuid)) && imp(!(t == k && u == o.uuid), s.m[t].m[u] == old(s.m[t].m[u])))))
@@ -547,7 +547,7 @@ package sod
 //@ func (*objectStore).count
 //@ serves C08 C09 C10
 //@ requires [wf] wfStore(s) && of != nil
-//@ requires [C09 lock-free] HS == 0 && HM == 0
+//@ requires [C09 lock-free] HS == 0 && HM == 0 && SL == 0
 //@ ensures [C10 count] n == ite(has(s.m, stypeOf(dyntype(of))), len(s.m[stypeOf(dyntype(of))].m), 0)
 //@ modifies nothing
 
@@ -647,7 +647,6 @@ package sod
 //@ trusted "assumed: a directory produced by a crash-free history loads into a coherent schema (C04 round trip)"
 //@ requires [wf] wfDBbase(db) && of != nil && !has(db.schemas, stypeOf(dyntype(of)))
 //@ requires [C08 locked] H >= 1 && SL == 2
-//@ requires [C09 lock-free] HS == 0 && HM == 0
 //@ ensures [load.not-eoi] err != ErrEOI
 //@ ensures [load.cached] (err == nil || errIs(err, ErrIndexCorrupted)) == has(db.schemas, stypeOf(dyntype(of)))
 //@ ensures [load.schema] imp(err == nil || errIs(err, ErrIndexCorrupted), s != nil && fresh(s) && db.schemas[stypeOf(dyntype(of))] == s && s.ObjectIndex.otype == dyntype(of) && s.coherent == (err == nil))
@@ -670,7 +669,7 @@ package sod
 //@ serves C01 C04 C06 C08 C09 C10 C11 C17 C19
 //@ requires [wf] wfDBbase(db) && of != nil
 //@ requires [C08 locked] H >= 1
-//@ requires [C09 lock-free] SL == 0 && HS == 0 && HM == 0
+//@ requires [C09 lock-free] SL == 0
 //@ ensures [C01 schema.ok] imp(err == nil, s != nil && has(db.schemas, stypeOf(dyntype(of))) && db.schemas[stypeOf(dyntype(of))] == s && s.ObjectIndex.otype == dyntype(of))
 //@ ensures [C01 schema.known] imp(old(has(db.schemas, stypeOf(dyntype(of)))), err == nil && s == old(db.schemas[stypeOf(dyntype(of))]))
 //@ ensures [C13 schema.not-eoi] err != ErrEOI
@@ -823,7 +822,7 @@ package sod
 //@ serves C01 C04 C05 C08 C09 C10
 //@ requires [wf] wfDBbase(db) && o != nil
 //@ requires [C08 locked] H == 2
-//@ requires [C09 lock-free] SL == 0 && HS == 0 && HM == 0
+//@ requires [C09 lock-free] SL == 0
 //@ let T string := stypeOf(dyntype(o))
 //@ assume [single-collection] forallk(t, string, imp(has(db.schemas, t), t == T))
 //@ ensures [C04 commit.ok] imp(err == nil, has(db.schemas, T) && committed(db, db.schemas[T]))
@@ -1361,3 +1360,85 @@ package sod
 //@ loop 2 invariant [objects] forall(k, 0, len(objects), objects[k] == old(objects[k]) && callerOwned(db, objects[k]) && objects[k].stage == 3 && dyntype(objects[k]) == schema.ObjectIndex.otype && objects[k] != nil)
 //@ loop 2 invariant [views] imp(rangeindex == -1 && old(has(db.schemas, T)), viewsSame(db, schema))
 //@ modifies Ghost.ACQ_H, Object.content, Object.stage, Object.uuid, Ghost.FSk, Ghost.FSc, Async.routineStarted, MapDom[string,*Schema]@db.schemas, MapVal[string,*Schema]@db.schemas, MapCard[string,*Schema]@db.schemas, MapDom[string,*objectMap], MapVal[string,*objectMap], MapCard[string,*objectMap], MapDom[string,Object], MapVal[string,Object], MapCard[string,Object], objIndex.i, objIndex.ver, MapDom[string,uint64], MapVal[string,uint64], MapCard[string,uint64], MapDom[uint64,string], MapVal[uint64,string], MapCard[uint64,string], fieldIndex.Index, fieldIndex.pos, MapDom[uint64,*indexedField], MapVal[uint64,*indexedField], MapCard[uint64,*indexedField], Elem[*indexedField]
+
+// ---- flushing (C10) -------------------------------------------------------------------
+
+//@ func (*DB).writeObject
+//@ serves C01 C05 C10 C18
+//@ requires [wf] wfDBbase(db) && o != nil
+//@ requires [C08 locked] H == 2
+//@ requires [C09 lock-free] SL == 0
+//@ let T string := stypeOf(dyntype(o))
+//@ ensures [C10 wo.ok] imp(err == nil, has(db.schemas, T) && FSk == upd(old(FSk), opath(db, db.schemas[T], o.uuid), 1) && FSc == upd(old(FSc), opath(db, db.schemas[T], o.uuid), o.content))
+//@ ensures [C10 wo.fail] imp(err != nil, FSk == old(FSk) && FSc == old(FSc))
+//@ ensures [C01 wo.wf] wfDBbase(db)
+//@ ensures [C01 wo.others] db.schemas == old(db.schemas) && forallk(t, string, imp(t != T, has(db.schemas, t) == old(has(db.schemas, t)) && db.schemas[t] == old(db.schemas[t]))) && imp(old(has(db.schemas, T)), has(db.schemas, T) && db.schemas[T] == old(db.schemas[T]))
+//@ modifies Ghost.FSk, Ghost.FSc, MapDom[string,*Schema]@db.schemas, MapVal[string,*Schema]@db.schemas, MapCard[string,*Schema]@db.schemas, Async.routineStarted
+//@ allocates Elem[uint8]
+
+// The two flush loops (objectMap.flush, objectStore.flush) iterate over a map while deleting from it and write
+// one file per object: their contracts are assumed for now (DESIGN.md C10), the callers are verified against them.
+//@ func (*objectMap).flush
+//@ serves C10 C08 C09
+//@ trusted "assumed contract of the flush loop: each pending object is written and removed, or kept when its write failed"
+//@ requires [wf] wfMapObj(m) && wfDBbase(db)
+//@ requires [C08 locked] H == 2
+//@ requires [C09 lock-free] HM == 0 && SL == 0
+//@ ensures [C10 mflush.none-left] imp(err == nil, forallk(u, string, !has(m.m, u)))
+//@ ensures [C10 mflush.subset] m.m == old(m.m) && forallk(u, string, imp(has(m.m, u), old(has(m.m, u)) && m.m[u] == old(m.m[u])))
+//@ ensures [C10 mflush.wf] wfMapObj(m) && wfDBbase(db)
+//@ modifies Ghost.FSk, Ghost.FSc, MapDom[string,Object]@m.m, MapCard[string,Object]@m.m, MapDom[string,*Schema]@db.schemas, MapVal[string,*Schema]@db.schemas, MapCard[string,*Schema]@db.schemas, Async.routineStarted
+
+//@ func (*DB).flushAll
+//@ serves C10 C08 C09 C04
+//@ trusted "assumed (with objectMap.flush): the pending writes of the collection are written to their files and removed from the pending store"
+//@ requires [wf] wfDB(db) && of != nil
+//@ requires [C08 locked] H == 2
+//@ requires [C09 lock-free] SL == 0 && HS == 0 && HM == 0
+//@ let T string := stypeOf(dyntype(of))
+//@ ensures [C10 flushAll.done] imp(err == nil && has(db.schemas, T), forallk(u, string, !pend(db, db.schemas[T], u)))
+//@ ensures [C10 flushAll.effect] imp(has(db.schemas, T), flushedColl(db, db.schemas[T]))
+//@ ensures [C10 flushAll.storage] imp(err != nil, isStorage(err))
+//@ ensures [C01 flushAll.wf] wfDB(db)
+//@ ensures [C01 flushAll.table] db.schemas == old(db.schemas) && forallk(t, string, has(db.schemas, t) == old(has(db.schemas, t)) && db.schemas[t] == old(db.schemas[t]))
+//@ modifies Ghost.FSk, Ghost.FSc, MapDom[string,Object], MapCard[string,Object], Async.routineStarted
+
+//@ func (*DB).flushDB
+//@ serves C10 C08 C09 C04
+//@ trusted "assumed (with objectStore.flush): the pending writes of every collection are written and removed"
+//@ requires [wf] wfDB(db)
+//@ requires [C08 locked] H == 2
+//@ requires [C09 lock-free] SL == 0 && HS == 0 && HM == 0
+//@ ensures [C10 flushDB.done] imp(err == nil, forallk(t, string, imp(has(db.schemas, t), forallk(u, string, !pend(db, db.schemas[t], u)))))
+//@ ensures [C10 flushDB.effect] forallk(t, string, imp(has(db.schemas, t), flushedColl(db, db.schemas[t])))
+//@ ensures [C10 flushDB.storage] imp(err != nil, isStorage(err))
+//@ ensures [C01 flushDB.wf] wfDB(db)
+//@ ensures [C01 flushDB.table] db.schemas == old(db.schemas) && forallk(t, string, has(db.schemas, t) == old(has(db.schemas, t)) && db.schemas[t] == old(db.schemas[t]))
+//@ modifies Ghost.FSk, Ghost.FSc, MapDom[string,Object], MapCard[string,Object], Async.routineStarted
+
+//@ func (*DB).flushAllAndCommit
+//@ serves C10 C04 C08 C09
+//@ requires [wf] wfDB(db) && of != nil
+//@ requires [C08 locked] H == 2
+//@ requires [C09 lock-free] SL == 0 && HS == 0 && HM == 0
+//@ let T string := stypeOf(dyntype(of))
+//@ assume [single-collection] forallk(t, string, imp(has(db.schemas, t), t == T))
+//@ ensures [C10 fac.done] imp(last == nil && old(has(db.schemas, T)), forallk(u, string, !pend(db, db.schemas[T], u)) && committed(db, db.schemas[T]))
+//@ ensures [C01 fac.wf] wfDB(db)
+//@ modifies Ghost.FSk, Ghost.FSc, MapDom[string,Object], MapCard[string,Object], Async.routineStarted, MapDom[string,*Schema]@db.schemas, MapVal[string,*Schema]@db.schemas, MapCard[string,*Schema]@db.schemas
+
+//@ func (*DB).Close
+//@ serves C04 C10 C08 C09
+//@ requires [wf] wfDB(db)
+//@ requires [C09 lock-free] lockFree()
+//@ assume [single-collection] forallk(t1, string, forallk(t2, string, imp(has(db.schemas, t1) && has(db.schemas, t2), t1 == t2)))
+//@ ensures [C08 one-section] ACQ_H == old(ACQ_H) + 1
+//@ ensures [C04 C10 Close.flushed-and-committed] imp(last == nil, forallk(t, string, imp(has(db.schemas, t), committed(db, db.schemas[t]) && forallk(u, string, !pend(db, db.schemas[t], u)))))
+//@ ensures [C01 Close.wf] wfDB(db)
+//@ loop 1 invariant [frame] preservedAt(MapDom[string,*Schema], db.schemas) && preservedAt(MapVal[string,*Schema], db.schemas) && preservedAt(MapCard[string,*Schema], db.schemas) && preserved(DB.schemas, DB.cache, DB.asyncw, DB.root)
+//@ loop 1 invariant [locals] H == 2 && SL == 0 && HS == 0 && HM == 0 && ACQ_H == old(ACQ_H) + 1
+//@ loop 1 invariant [table] forallk(t, string, has(db.schemas, t) == old(has(db.schemas, t)) && db.schemas[t] == old(db.schemas[t])) && forallk(t1, string, forallk(t2, string, imp(has(db.schemas, t1) && has(db.schemas, t2), t1 == t2)))
+//@ loop 1 invariant [wf] wfDB(db)
+//@ loop 1 invariant [flushed] imp(last == nil, forallk(t, string, imp(has(db.schemas, t), forallk(u, string, !pend(db, db.schemas[t], u)))))
+//@ loop 1 invariant [committed] imp(last == nil, forallk(t, string, imp(has(db.schemas, t) && visited(t), committed(db, db.schemas[t]))))
+//@ modifies Ghost.ACQ_H, Ghost.FSk, Ghost.FSc, MapDom[string,Object], MapCard[string,Object], Async.routineStarted, MapDom[string,*Schema]@db.schemas, MapVal[string,*Schema]@db.schemas, MapCard[string,*Schema]@db.schemas
